@@ -183,6 +183,18 @@ fn fill_bytes(fill: u64, tag: u64, n: usize) -> std::vec::Vec<u8> {
             }
         }
         5 => b.iter_mut().for_each(|x| *x = 0x7f),
+        6 => {
+            // DER-looking: SEQUENCE head whose short-form length is exact, too short or too long
+            if n >= 2 {
+                b[0] = 0x30;
+                b[1] = match (fill >> 9) % 4 {
+                    0 => (n - 2).min(0x7f) as u8,
+                    1 => ((n - 2) / 2).min(0x7f) as u8,
+                    2 => (n + 5).min(0x7f) as u8,
+                    _ => 0x7f,
+                };
+            }
+        }
         _ => {}
     }
     b
